@@ -1,9 +1,8 @@
 (* C05 - Shutdown and restart stop everything, in priority order, and only then exit.
-   Model: SV.Life.Model.  Property theorems only.  (Group order and the exit
-   condition are tied by the correspondence; termination is not proved.) *)
+   Model: SV.Life.Model.  Property theorems only. *)
 From Coq Require Import ZArith List Bool.
 Import ListNotations.
-Require Import SV.Life.Model SV.Life.Shutdown.
+Require Import SV.Life.Model SV.Life.Inv SV.Life.Shutdown SV.Life.Order SV.Life.Liveness.
 Open Scope Z_scope.
 
 (* once a shutdown/restart request has been observed at a loop boundary no child is forked
@@ -38,6 +37,49 @@ Theorem c05_rpc_refused :
     Model.do_rpc U pconfs gconfs req r w = (Some tt, set_out (EAns req F_SHUTDOWN_STATE :: out w) w).
 Proof. exact rpc_refused. Qed.
 Print Assumptions c05_rpc_refused.
+
+(* groups are stopped one at a time in descending priority order: the groups still to be stopped are a
+   prefix of the priority-sorted list, and every group already taken off is entirely stopped *)
+Theorem c05_groups_in_priority_order :
+  forall U pconfs gconfs ops,
+    let w := Model.run U pconfs gconfs ops in
+    (stopping w = false -> stop_groups w = []) /\
+    (stopping w = true ->
+       mood w < 1 /\
+       exists done, sorted_groups gconfs = stop_groups w ++ done /\
+                    forall g, In g done -> unstopped gconfs g w = false).
+Proof. exact stop_groups_prefix. Qed.
+Print Assumptions c05_groups_in_priority_order.
+
+(* ... and, read off the trace: whenever a process is sent into STOPPING after the shutdown was announced, every
+   process of every group later in priority order was already in a stopped state at that moment *)
+Theorem c05_no_signal_before_earlier_groups_stopped :
+  forall U pconfs gconfs ops pre i f x e post,
+    out (Model.run U pconfs gconfs ops) = pre ++ EState i f STOPPING x e :: post ->
+    In (ESup 2) post ->
+    exists rest g done,
+      sorted_groups gconfs = rest ++ g :: done /\ In i (g_procs (gc gconfs g)) /\
+      forall g' j, In g' done -> In j (g_procs (gc gconfs g')) -> in_stopped_states (last_state post j) = true.
+Proof. exact shutdown_order. Qed.
+Print Assumptions c05_no_signal_before_earlier_groups_stopped.
+
+(* the main loop exits only when every managed process is in a stopped state *)
+Theorem c05_exit_only_when_all_stopped :
+  forall U pconfs gconfs ops,
+    let w := Model.run U pconfs gconfs ops in exited w = true -> forall g, unstopped gconfs g w = false.
+Proof. exact exit_all_stopped. Qed.
+Print Assumptions c05_exit_only_when_all_stopped.
+
+(* ... and it does exit, within a number of passes bounded by the configuration, provided the clock advances,
+   every child dies at the latest on SIGKILL (no kill failure) and no more than 100 children wait to be reaped in one pass *)
+Theorem c05_shutdown_terminates :
+  forall U pconfs gconfs ops0 ops,
+    mood (Model.run U pconfs gconfs ops0) < 1 ->
+    fair U pconfs gconfs (Model.run U pconfs gconfs ops0) ops ->
+    (bound U pconfs gconfs <= length ops)%nat ->
+    exited (Model.run U pconfs gconfs (ops0 ++ ops)) = true.
+Proof. exact shutdown_terminates_run. Qed.
+Print Assumptions c05_shutdown_terminates.
 
 (* non-vacuity: a run in which SIGTERM arrives while a child ignores the stop signal *)
 Example c05_example :
